@@ -114,4 +114,33 @@ TEXT = {
         "level_note": COMMON_NOTE + "Partial: lane-wise kernel theorems missing. Intrinsic semantics are transcribed (trusted, validated by execution).",
         "technique": "Lean 4 proof (exhaustive kernel decision over byte tables) + differential correspondence incl. raw SIMD kernels",
     },
+    "C01": {
+        "level_text": "Proved for every well-formed table with reciprocal extensions and symmetric join, with no bound on size: the seed-and-walk loop of the "
+                      "model visits id-nodes that are duplicate-free and cover exactly the table (a partition), and the code-shaped walk (availability "
+                      "tested before the incoming count, the 'unreachable' panic) never panics and equals the abstract walk (refinement). Not yet "
+                      "proved: the string assembly of node sequences, the recorded-steps clause and the payload fold; these clauses are evaluated "
+                      "as executable predicates on the real crate's nodes for all three entry points, and the model is diffed verbatim with the "
+                      "crate (node order, orientation, cycle cut, payload order via a non-commutative reduction).",
+        "design_ref": "DESIGN.md section 6, C01",
+        "level_note": COMMON_NOTE + "Partial: id-level theorem; sequence-level clauses by execution.",
+        "technique": "Lean 4 proof (invariant over a well-founded walk; refinement of the code-shaped walk to an abstract one) + differential correspondence with executable predicates",
+    },
+    "C02": {
+        "level_text": "Proved (ids): for every well-formed reciprocal table, two k-mer ids share a node iff they are connected by good links (sole "
+                      "extension on both facing sides, distinct non-palindromic k-mers, join accepted) - nodes are exactly the connected components, "
+                      "hence maximal and branch-free; reciprocity of the link relation is proved from reciprocity of extensions. The transfer "
+                      "to node sequences is by execution: components recomputed from the table by label propagation are compared with the crate's nodes.",
+        "design_ref": "DESIGN.md section 6, C02",
+        "level_note": COMMON_NOTE + "Partial: as C01.",
+        "technique": "Lean 4 proof ('sealed' invariant => nodes = connected components) + differential correspondence with executable predicate",
+    },
+    "C05": {
+        "level_text": "Proved: the bucket-pass planning tiles the 256 buckets exactly once for every memory budget, at most 256 passes, CountFilter "
+                      "saturates at the extracted 65535. The main equality (table = pass-free reference grouping, for all read sets) is stated in "
+                      "Lean but not yet proved; it is decided by evaluating the reference on the crate's output while the hook sweeps the real pass "
+                      "count over 1..256 (the count is reported back by the hook and recorded in the evidence).",
+        "design_ref": "DESIGN.md section 6, C05",
+        "level_note": COMMON_NOTE + "Partial: filter_eq_ref not proved. Uses the verif_hooks bytes-per-unit override and pass counter.",
+        "technique": "Lean 4 proof (pass planning) + differential correspondence with executable reference over all pass counts",
+    },
 }
